@@ -27,6 +27,8 @@ type mapDriver struct {
 	evicted   float64
 	// counters for C18 (model side)
 	cnt modelCounts
+	// keys currently carrying the invalidation label "L" in the backend's own index
+	labelled map[string]bool
 }
 
 type modelCounts struct {
@@ -289,6 +291,57 @@ func (d *mapDriver) del(key []byte) {
 		d.c.Assert(errors.Is(err, cache.ErrNotFound), "delete-missing",
 			"Delete(%s) = %v, model: key absent, want ErrNotFound", keyName(key), err)
 	}
+}
+
+// label attaches the invalidation label "L" to key through the backend's index (the key buffer is
+// the caller's: it is overwritten right after the call).
+func (d *mapDriver) label(key []byte) {
+	k, poison := poisonKey(key)
+	d.be.Index().AddInvalidationLabels(k, "L")
+	poison()
+
+	if d.labelled == nil {
+		d.labelled = map[string]bool{}
+	}
+
+	d.labelled[string(key)] = true
+	d.c.Tracef("AddInvalidationLabels(%s, L)", keyName(key))
+	d.c.Class("label-added")
+}
+
+// invalidate removes every labelled key; the labels are consumed.
+func (d *mapDriver) invalidate() {
+	n, err := d.be.Index().InvalidateByLabels(bg, "L")
+
+	removed, uncertain := 0, false
+
+	for k := range d.labelled {
+		if d.lossy[k] {
+			uncertain = true
+		}
+
+		if d.ref.del([]byte(k)) {
+			removed++
+		}
+
+		delete(d.lossy, k)
+	}
+
+	d.c.Tracef("InvalidateByLabels(L) = (%d, %v)   model: %d labelled keys, %d present", n, err, len(d.labelled), removed)
+	d.c.Assert(err == nil, "invalidate-error", "InvalidateByLabels returned %v", err)
+
+	if uncertain {
+		d.cnt.deletes += float64(n)
+	} else {
+		d.c.Assert(n == removed, "invalidate-count", "InvalidateByLabels(L) reported %d removed entries, the model removed %d (labelled %d)", n, removed, len(d.labelled))
+		d.cnt.deletes += float64(removed)
+	}
+
+	if len(d.labelled) > 0 {
+		d.c.Class("invalidate-labelled")
+	}
+
+	d.labelled = nil
 }
 
 func (d *mapDriver) expireAll() {
